@@ -12,8 +12,9 @@ import sys
 import tempfile
 
 HERE = os.path.dirname(os.path.dirname(os.path.abspath(__file__)))
-args = [a for a in sys.argv[1:] if not a.startswith("--")]
 opt = lambda k, d: sys.argv[sys.argv.index(k) + 1] if k in sys.argv else d
+_vals = {sys.argv[i + 1] for i, a in enumerate(sys.argv[:-1]) if a in ("--seeds", "--tier")}
+args = [a for a in sys.argv[1:] if not a.startswith("--") and a not in _vals]
 seeds = [int(s) for s in opt("--seeds", "1,2").split(",")]
 tier = opt("--tier", "quick")
 ids = args or sorted(d for d in os.listdir(os.path.join(HERE, "seeded")) if os.path.exists(os.path.join(HERE, "seeded", d, "patch.diff")))
@@ -28,6 +29,8 @@ for sid in ids:
     d = os.path.join(HERE, "seeded", sid)
     meta = json.load(open(os.path.join(d, "meta.json")))
     pid = meta["property"]
+    if meta.get("detected_by_check") == "pending" or not os.path.exists(os.path.join(HERE, "harness", "corr", pid + ".py")):
+        continue
     wt = tempfile.mkdtemp(prefix="seedsweep_")
     os.rmdir(wt)
     run(["git", "-C", "/repo", "worktree", "add", "-q", "--detach", wt, "HEAD"])
